@@ -14,7 +14,11 @@ Definition mfloordiv (a b : mval) : mval :=
   | MO (NI x), MO (NI y) => MO (NI (x / y))
   | MO _, _ | _, MO _ => match as_num a, as_num b with
                          | NI x, NI y => MO (NI (x / y))       (* NumPy converts both sides to Python integers *)
-                         | na, nb => MO (NF (f64_floordiv (num_to_f64 na) (num_to_f64 nb))) end
+                         | NF _, _ | _, NF _ => MO (NF (f64_floordiv (num_to_f64 (as_num a)) (num_to_f64 (as_num b))))
+                         | na, nb => match num_exact na, num_exact nb with      (* Fraction // : the exact floor, an int *)
+                                     | Some u, Some v => MO (NI (dy_floor_div u v))
+                                     | _, _ => MO (NF (f64_floordiv (num_to_f64 na) (num_to_f64 nb))) end
+                         end
   | MI x, MI y => MI (wrap_i64 (x / y))
   | MU x, MU y => MU (wrap_u64 (x / y))
   | _, _ => MF (f64_floordiv (num_to_f64 (as_num a)) (num_to_f64 (as_num b)))
@@ -24,14 +28,19 @@ Definition mmod (a b : mval) : mval :=
   | MO (NI x), MO (NI y) => MO (NI (x mod y))
   | MO _, _ | _, MO _ => match as_num a, as_num b with
                          | NI x, NI y => MO (NI (x mod y))
-                         | na, nb => MO (NF (f64_mod (num_to_f64 na) (num_to_f64 nb))) end
+                         | NF _, _ | _, NF _ => MO (NF (f64_mod (num_to_f64 (as_num a)) (num_to_f64 (as_num b))))
+                         | na, nb => match num_exact na, num_exact nb with      (* Fraction % : exact *)
+                                     | Some u, Some v => MO (NR (dy_mod u v))
+                                     | _, _ => MO (NF (f64_mod (num_to_f64 na) (num_to_f64 nb))) end
+                         end
   | MI x, MI y => MI (x mod y)
   | MU x, MU y => MU (x mod y)
   | _, _ => MF (f64_mod (num_to_f64 (as_num a)) (num_to_f64 (as_num b)))
   end.
 
-(* the raw functions on one pair of codes; nfr = n_frac of the result format *)
-Definition div_raw_elem (d : dop) (fx fy : fmt) (nfr : Z) (cx cy : Z) : outcome mval :=
+(* the raw functions on one pair of codes; nfr = n_frac of the result format.  [exa exb exq]: the array-wide
+   decisions of utils.needs_exact_scale for the three scale_raw calls (dividend, divisor, quotient) *)
+Definition div_raw_elem (exa exb exq : bool) (d : dop) (fx fy : fmt) (nfr : Z) (cx cy : Z) : outcome mval :=
   let pc := precision_cast nfr in
   let lx := cast_if pc (load (storage fx) cx) in
   let ly := cast_if pc (load (storage fy) cy) in
@@ -42,20 +51,31 @@ Definition div_raw_elem (d : dop) (fx fy : fmt) (nfr : Z) (cx cy : Z) : outcome 
                      the raw values aligned on the finer fraction length, integer quotient, result fraction length *)
       let m := Z.max (nf fx) (nf fy) in
       let rc := raw_cast (storage fx) (storage fy) (Z.max (nw fx + m - nf fx) (nw fy + m - nf fy)) in
-      bind (mscale_raw (cast_if rc (load (storage fx) cx)) (m - nf fx)) (fun a =>
-      bind (mscale_raw (cast_if rc (load (storage fy) cy)) (m - nf fy)) (fun b =>
-      mscale_raw (mfloordiv a b) nfr))
+      bind (mscale_raw exa (cast_if rc (load (storage fx) cx)) (m - nf fx)) (fun a =>
+      bind (mscale_raw exb (cast_if rc (load (storage fy) cy)) (m - nf fy)) (fun b =>
+      mscale_raw exq (mfloordiv a b) nfr))
   | DMod =>       (* scale_raw(x.val, n_frac - x.n_frac) % scale_raw(y.val, n_frac - y.n_frac) *)
       let rc := raw_cast (storage fx) (storage fy) (Z.max (nw fx + nfr - nf fx) (nw fy + nfr - nf fy)) in
-      bind (mscale_raw (cast_if rc (load (storage fx) cx)) (nfr - nf fx)) (fun a =>
-      bind (mscale_raw (cast_if rc (load (storage fy) cy)) (nfr - nf fy)) (fun b => Ok (mmod a b)))
+      bind (mscale_raw exa (cast_if rc (load (storage fx) cx)) (nfr - nf fx)) (fun a =>
+      bind (mscale_raw exb (cast_if rc (load (storage fy) cy)) (nfr - nf fy)) (fun b => Ok (mmod a b)))
   end.
 
 Definition div_fmt (d : dop) (fx fy : fmt) : fmt :=
   match d with DTrue => grow_truediv fx fy | DFloor => grow_floordiv fx fy | DMod => grow_mod fx fy end.
 
+(* utils.needs_exact_scale(val, shift) for an array of raw codes: a negative shift and some code of more than 53 bits *)
+Definition codes_need_exact (cs : list Z) (shift : Z) : bool := (shift <? 0) && existsb (fun c => 2^53 <=? Z.abs c) cs.
+(* ... for the integer quotients of the floor division (computed with the two first decisions off: their shifts are >= 0) *)
+Definition quot_need_exact (fx fy : fmt) (nfr : Z) (cxs cys : list Z) : bool :=
+  (nfr <? 0) && existsb (fun p => match div_raw_elem false false false DFloor fx fy 0 (fst p) (snd p) with
+                                  | Ok q => int_mag_ge q (2^53) | _ => false end) (combine cxs cys).
 Definition div_raw (d : dop) (fx : fmt) (cxs : list Z) (fy : fmt) (cys : list Z) (fz : fmt) (r : rmode) (o : omode) : outcome wres :=
-  bind (map2M (div_raw_elem d fx fy (nf fz)) cxs cys) (fun raws =>
+  let nfr := nf fz in
+  let m := match d with DFloor => Z.max (nf fx) (nf fy) | _ => nfr end in
+  let exa := codes_need_exact cxs (m - nf fx) in
+  let exb := codes_need_exact cys (m - nf fy) in
+  let exq := match d with DFloor => quot_need_exact fx fy nfr cxs cys | _ => false end in
+  bind (map2M (div_raw_elem exa exb exq d fx fy nfr) cxs cys) (fun raws =>
   bind (arr_of raws) (fun av => set_val_real fz r o true (fst av) (snd av))).
 
 (* repr method: x / y, x // y, x % y on the float values *)
